@@ -9,6 +9,7 @@ package props
 import (
 	"encoding/json"
 	"fmt"
+	"os"
 	"strings"
 
 	"github.com/cloudwego/eino/verifharness/vh"
@@ -55,10 +56,15 @@ func c20Compare(c *c20Case, m *c20Model, obs *c20Obs) *c20Diff {
 		return &c20Diff{"C20:harness:length", fmt.Sprintf("expected %d call results, got %d", len(exp), len(obs.Out))}
 	}
 	for i := range exp {
+		if exp[i] == "panic" && obs.Out[i] == "panic" {
+			// predicted and observed (only with fact values other than the source's, VERIF_C20_KFACTS):
+			// what a graph answers after a panic escaped one of its calls is not specified
+			return nil
+		}
 		if exp[i] != obs.Out[i] {
 			opk := c20ObservedOpKind(c, i)
 			if obs.Out[i] == "panic" {
-				return &c20Diff{"C20:panic:" + opk, fmt.Sprintf("call %d (%s) panicked instead of returning %s", i, opk, exp[i])}
+				return &c20Diff{"C20:panic:" + opk + c20KeyedSuffix(c, opk), fmt.Sprintf("call %d (%s) panicked instead of returning %s", i, opk, exp[i])}
 			}
 			return &c20Diff{fmt.Sprintf("C20:call-outcome:%s:model=%s,impl=%s", opk, exp[i], obs.Out[i]),
 				fmt.Sprintf("call %d (%s): the model says %s, the implementation returned %s", i, opk, exp[i], obs.Out[i])}
@@ -84,7 +90,26 @@ func c20ObservedOpKind(c *c20Case, i int) string {
 	return c20DeferredOpKind(c, i)
 }
 
+// VERIF_C20_KFACTS=<helperNilSafe>,<compileChecksOwnTypes> (e.g. "false,false"): run the keyed
+// model with these fact values instead of the expected ones – only for validating the model's
+// other branches against an older tree by hand; never set by ./check.
+func c20KFactsEnv() *c20KFactsOvr {
+	v := os.Getenv("VERIF_C20_KFACTS")
+	p := strings.Split(v, ",")
+	if len(p) != 2 {
+		return nil
+	}
+	return &c20KFactsOvr{HelperNilSafe: p[0] == "true", CompileChecksOwnTypes: p[1] == "true"}
+}
+
 func c20AskModel(ctx *vh.Ctx, c *c20Case) (*c20Model, error) {
+	if c.KFacts == nil {
+		if k := c20KFactsEnv(); k != nil {
+			cc := *c
+			cc.KFacts = k
+			c = &cc
+		}
+	}
 	raw, err := ctx.Oracle.Ask("C20", c)
 	if err != nil {
 		return nil, err
@@ -119,7 +144,7 @@ func c20Determinism(c *c20Case, first *c20Obs, repeats int) *c20Diff {
 		o := c20Exec(c)
 		// accept/reject must not vary; which of two simultaneous violations is reported first may
 		// follow Go's map order (e.g. two bad end nodes of one branch), so error identity is not compared here
-		if c20Coarse(o.Out) != c20Coarse(first.Out) {
+		if c20Coarse(c20UpToPanic(o.Out)) != c20Coarse(c20UpToPanic(first.Out)) {
 			i := 0
 			for i < len(o.Out) && i < len(first.Out) && c20Coarse(o.Out[i:i+1]) == c20Coarse(first.Out[i:i+1]) {
 				i++
@@ -127,11 +152,31 @@ func c20Determinism(c *c20Case, first *c20Obs, repeats int) *c20Diff {
 			return &c20Diff{"C20:nondeterministic:" + c20ObservedOpKind(c, i),
 				fmt.Sprintf("attempt %d of the same construction sequence gave %v, the first attempt %v", k+1, o.Out, first.Out)}
 		}
-		if strings.Join(o.R1, ",") != strings.Join(first.R1, ",") {
+		if !c20HasPanic(first.Out) && !c20HasPanic(o.Out) && strings.Join(o.R1, ",") != strings.Join(first.R1, ",") {
 			return &c20Diff{"C20:nondeterministic:run", fmt.Sprintf("attempt %d: first runnable answered %v, on the first attempt %v", k+1, o.R1, first.R1)}
 		}
 	}
 	return nil
+}
+
+// c20UpToPanic: the results up to and including the first panic (what a graph answers after a
+// panic escaped one of its calls is not specified; the panic itself is reported by c20Compare)
+func c20UpToPanic(out []string) []string {
+	for i, o := range out {
+		if o == "panic" {
+			return out[:i+1]
+		}
+	}
+	return out
+}
+
+func c20HasPanic(out []string) bool {
+	for _, o := range out {
+		if o == "panic" {
+			return true
+		}
+	}
+	return false
 }
 
 // c20Shrink drops calls while the same signature persists.
@@ -182,6 +227,7 @@ func c20One(ctx *vh.Ctx, c *c20Case, repeats int) error {
 	if c.Inject != "" {
 		ctx.Res.Dist("inject=" + c.Inject)
 	}
+	c20KeyedDist(ctx, c)
 	if m.Sensitive {
 		ctx.Res.Dist("left-to-C07(sensitive)")
 	}
@@ -235,7 +281,7 @@ func runC20(ctx *vh.Ctx) error {
 		return c20One(ctx, &c, repeats)
 	}
 	// fixed scenarios first (known shapes, incl. the recompile defect)
-	for _, c := range c20Fixed() {
+	for _, c := range append(c20Fixed(), c20KeyedFixed()...) {
 		if err := c20One(ctx, c, repeats); err != nil {
 			return err
 		}
@@ -246,9 +292,24 @@ func runC20(ctx *vh.Ctx) error {
 			return err
 		}
 	}
+	// … and the calls after a Compile on the graphs of such trees (Model/C20Nest.lean)
+	for _, c := range c20DNestFixed() {
+		if err := c20DOne(ctx, c, repeats); err != nil {
+			return err
+		}
+	}
 	nd := ctx.N(4000, 30000)
 	for i := 0; i < nd && ctx.TimeLeft(); i++ {
-		if err := c20DOne(ctx, c20DGen(ctx.Rng), 5); err != nil {
+		var c *c20DCase
+		if ctx.Rng.Chance(25) {
+			c = c20DGenNested(ctx.Rng)
+		} else {
+			c = c20DGen(ctx.Rng)
+			if ctx.Rng.Chance(40) {
+				c20DGenLater(ctx.Rng, c)
+			}
+		}
+		if err := c20DOne(ctx, c, 5); err != nil {
 			return err
 		}
 	}
@@ -256,9 +317,13 @@ func runC20(ctx *vh.Ctx) error {
 	for i := 0; i < n && ctx.TimeLeft(); i++ {
 		var c *c20Case
 		switch x := ctx.Rng.Intn(100); {
-		case x < 76:
+		case x < 62:
 			c = c20GenGraph(ctx.Rng, false)
-		case x < 88:
+		case x < 73:
+			c = c20GenKeyed(ctx.Rng) // key options (Model/C20Keys.lean)
+		case x < 78:
+			c = c20GenKeyedWf(ctx.Rng)
+		case x < 89:
 			c = c20GenChain(ctx.Rng)
 		default:
 			c = c20GenWorkflow(ctx.Rng)
